@@ -287,7 +287,7 @@ class SiteMonitor:
         site = self.hlines.get(key)
         if site is not None:
             exc = sys.exception()
-            rec = f'H|{site}|{type(exc).__name__ if exc is not None else "?"}'
+            rec = f'H|{site}|' + ('/'.join(c.__name__ for c in type(exc).__mro__[:-2]) if exc is not None else '?')
             if rec not in self.seen:
                 self.seen.add(rec)
                 self.new.append(rec)
@@ -506,6 +506,72 @@ def scan_cursor_writers() -> list[tuple[str, str, str]]:
     return sorted(set(found))
 
 
+ARITH_FILES = ['xpath1/_xpath1_operators.py', 'xpath2/_xpath2_operators.py', 'xpath_tokens/tokens.py',
+               'xpath1/_xpath1_functions.py', 'xpath2/_xpath2_functions.py', 'xpath30/_xpath30_functions.py',
+               'xpath31/_xpath31_functions.py', 'xpath2/_xpath2_constructors.py', 'xpath31/_xpath31_operators.py',
+               'xpath30/_xpath30_operators.py']
+
+
+def scan_arith_tries() -> list[tuple[str, str, list[str], list[str]]]:
+    """(file, function, arithmetic operation kinds in the try body, handler class names) of every
+    try/except of the operator and function modules whose body contains arithmetic"""
+    import ast
+    opk = {ast.Div: 'div', ast.FloorDiv: 'floordiv', ast.Mod: 'mod', ast.Pow: 'pow', ast.Mult: 'mul',
+           ast.Add: 'add', ast.Sub: 'sub'}
+    rows = []
+
+    def names_of(t):
+        if t is None:
+            return ['BaseException']
+        if isinstance(t, ast.Tuple):
+            return [n for e in t.elts for n in names_of(e)]
+        return [ast.unparse(t).split('.')[-1]]
+
+    def ops_in(stmts):
+        ops = set()
+
+        def walk(n):
+            if isinstance(n, (ast.FunctionDef, ast.Lambda, ast.AsyncFunctionDef)):
+                return
+            if isinstance(n, ast.Try):      # a nested try protects its own body
+                for h in n.handlers:
+                    for c in h.body:
+                        walk(c)
+                for c in n.orelse + n.finalbody:
+                    walk(c)
+                return
+            if isinstance(n, ast.BinOp) and type(n.op) in opk:
+                if not (isinstance(n.op, ast.Mod) and isinstance(n.left, ast.Constant) and isinstance(n.left.value, str)):
+                    ops.add(opk[type(n.op)])
+            if isinstance(n, ast.Call):
+                f = ast.unparse(n.func)
+                if f in ('int', 'float', 'Decimal', 'decimal.Decimal', 'round'):
+                    ops.add(f.split('.')[-1] + '()')
+                elif f.startswith('math.'):
+                    ops.add('math()')
+            for c in ast.iter_child_nodes(n):
+                walk(c)
+        for st in stmts:
+            walk(st)
+        return sorted(ops)
+
+    def visit(node, func, rel):
+        for ch in ast.iter_child_nodes(node):
+            f2 = ch.name if isinstance(ch, (ast.FunctionDef, ast.AsyncFunctionDef)) else func
+            if isinstance(ch, ast.Try) and ch.handlers:
+                ops = ops_in(ch.body)
+                if ops:
+                    rows.append((rel, func or '<module>', ops,
+                                 sorted({n for h in ch.handlers for n in names_of(h.type)})))
+            visit(ch, f2, rel)
+
+    for rel in ARITH_FILES:
+        path = REPO / 'elementpath' / rel
+        if path.exists():
+            visit(ast.parse(path.read_text()), None, rel)
+    return rows
+
+
 def parse_shape(func) -> dict:
     """shape of a `parse` method: for the outermost try/finally — the attribute assignments of the
     `finally` block (in order), the kinds of the statements before the `try`, whether a call of
@@ -607,6 +673,10 @@ def translate_tables(run: Run) -> dict:
     out.append(f'def xp1ParseFinally : List (String × String) := {pairs(sh1["finally"])}')
     out.append(f'def xp1ParseBeforeTry : List String := {strs(sh1["before"])}')
     out.append(f'def xp1ParseCallsInTry : List String := {strs(sorted(set(sh1["calls_in_try"])))}')
+    rows = scan_arith_tries()
+    out.append('def tryTable : List (String × String × List String × List String) := [' + ', '.join(
+        f'({lean_str(a)}, {lean_str(b)}, {strs(c)}, {strs(d)})' for a, b, c, d in rows) + ']')
+    info['arith_try_blocks'] = len(rows)
     writers = scan_cursor_writers()
     out.append('def cursorWriters : List (String × String × String) := [' +
                ', '.join(f'({lean_str(a)}, {lean_str(b)}, {lean_str(c)})' for a, b, c in writers) + ']')
@@ -1152,7 +1222,50 @@ def explore(run: Run, n: int) -> list[dict]:
     run.log(f'explored {len(cases)} inputs in {time.time() - t0:.1f}s')
     for d in judge_explored(run, results):
         run.disagree(d)
+    site_coverage(run, results)
     return cases
+
+
+def site_coverage(run: Run, results: list[dict]) -> None:
+    """evidence: how many `except` clauses / coded `raise` sites of the package this run's stream reached,
+    and which (handler, declared class) pairs it did not"""
+    hits = set()
+    for r in results:
+        hits.update(r.get('hits', ()))
+    if not hits:
+        run.stats.extra['error_sites'] = 'site monitoring unavailable'
+        return
+    sites = scan_error_sites()
+    caught: dict[str, set] = {}
+    for h in hits:
+        parts = h.split('|')
+        if parts[0] == 'H':
+            caught.setdefault(parts[1], set()).update(parts[2].split('/'))
+    raised = {h.split('|')[1] for h in hits if h.startswith('R|')}
+    pairs = [(site, cls) for site, hd in sites['handlers'].items() for cls in hd['classes']]
+    reached_pairs = [(s_, c) for s_, c in pairs if c in caught.get(s_, ()) or (c == '<bare>' and s_ in caught)]
+    unreached = sorted(f'{s_}:{c}' for s_, c in pairs if (s_, c) not in set(reached_pairs))
+    arith = ('InvalidOperation', 'DivisionByZero', 'DecimalException', 'Overflow', 'OverflowError', 'ZeroDivisionError',
+             'ArithmeticError', 'UnicodeError', 'UnicodeDecodeError', 'UnicodeEncodeError', 'KeyError', 'IndexError',
+             'LookupError', 'ValueError')
+    ev = {
+        'how': 'ast scan of elementpath/**/*.py; sys.monitoring LINE events in the exploration workers; a handler '
+               'pair (site, class) is reached when an exception whose MRO contains the class entered that handler',
+        'except_handlers': len(sites['handlers']), 'except_handlers_reached': len([s_ for s_ in sites['handlers'] if s_ in caught]),
+        'handler_class_pairs': len(pairs), 'handler_class_pairs_reached': len(reached_pairs),
+        'coded_raise_sites': len(sites['raises']), 'coded_raise_sites_reached': len(raised & set(sites['raises'])),
+        'unreached_handler_pairs_arithmetic_lookup_unicode_value':
+            [u for u in unreached if u.rsplit(':', 1)[1] in arith],
+        'unreached_handler_pairs_other': [u for u in unreached if u.rsplit(':', 1)[1] not in arith],
+        'unreached_raise_sites': sorted(f'{s_}[{sites["raises"][s_]["code"]}]' for s_ in sites['raises'] if s_ not in raised),
+    }
+    run.stats.extra['error_sites'] = ev
+    run.stats.count('sites:except-handlers-reached', ev['except_handlers_reached'])
+    run.stats.count('sites:except-handlers-total', ev['except_handlers'])
+    run.stats.count('sites:handler-class-pairs-reached', ev['handler_class_pairs_reached'])
+    run.stats.count('sites:handler-class-pairs-total', ev['handler_class_pairs'])
+    run.stats.count('sites:coded-raise-sites-reached', ev['coded_raise_sites_reached'])
+    run.stats.count('sites:coded-raise-sites-total', ev['coded_raise_sites'])
 
 
 # --------------------------------------------------------------------------------------
@@ -1195,7 +1308,7 @@ def search(run: Run):
     # (t) every error code
     correspond_taxonomy(sub, 500)
     # (c) a second, larger exploration stream
-    for d in judge_explored(sub, explore_many(gen_explore_cases(sub.rng, run.scale(15000, 60000), matrix='none'),
+    for d in judge_explored(sub, explore_many(gen_explore_cases(sub.rng, run.scale(15000, 60000), matrix='classes'),
                                               nworkers=int(os.environ.get('C03_WORKERS', '4'))), count=False):
         sub.disagree(d)
     run.notes.append(f'search: {len(lines)} reuse histories, {len(srcs)} lexer sources, all error codes, '
